@@ -4,6 +4,7 @@ The Lean sources do not read /repo: they are tied to the code by the corresponde
 A failure here on a clean /verif is therefore a failure of the machinery (exit 2), never a
 verdict about the repository.
 """
+import json
 import os
 import re
 import subprocess
@@ -91,8 +92,18 @@ def translator_tie(prop, env):
             bad.append(n + " (axioms " + ",".join(sorted(axs - ALLOWED_AXIOMS)) + ")")
     out["theorems"] = names
     out["axioms_ok"] = not bad
+    # translation validation: the emitted definitions evaluated against the Python functions on sampled arguments
+    try:
+        import exval
+        tv = exval.run(mods, seed=int(os.environ.get("VERIF_SEED", "0") or 0), n=8)
+    except Exception as e:  # noqa
+        tv = {"error": f"{type(e).__name__}: {e}"[:400], "cases": 0, "n_mismatches": 0}
+    out["translation_validation"] = tv
     if bad or q.returncode != 0:
         out.update(status="broken", detail=("axiom audit: " + "; ".join(bad))[:1500])
+    elif tv.get("n_mismatches") or tv.get("error"):
+        out.update(status="broken", detail=("translation validation: the emitted Lean definition and the Python function differ: "
+                                            + json.dumps(tv.get("mismatches") or tv.get("error"))[:1200]))
     else:
         untr = [k for k, v in out["units"].items() if v != "translated"]
         out["status"] = "checked"
